@@ -8,7 +8,7 @@ H: spec/H_DocBoundaries.tla.  spec -> code: every list of the model is written w
    with parse / compose_all / load_all (both loaders); code -> spec: seeded lists of documents drawn from the repository's
    data files under the option product.  All observations are judged by TLC (spec/Trace_Docs.tla).
 """
-import glob, json, os, random
+import copy, glob, json, os, random
 import multiprocessing as mp
 from .. import tlc, trace
 from ..common import Verdict, use_repo, REPO, SEED
@@ -232,14 +232,36 @@ def split_docs(recs):
     return docs
 
 
-def observe(yaml, path, items, D, L, opts, is_end=None):
+def feed(items, mode):
+    """how the documents of a dump_all() reach the dumper (delivery modes of spec/DocFeed.tla):
+    list   the live values themselves
+    fresh  a generator that builds every value freshly and keeps no reference to the earlier ones
+    again  ONE mutable object, handed over again and again, modified in between to show the next value"""
+    if mode == 'fresh':
+        return (copy.deepcopy(x) for x in items)
+    if mode == 'again':
+        def gen():
+            o = type(items[0])()
+            for x in items:
+                c = copy.deepcopy(x)
+                o.clear()
+                if isinstance(o, dict):
+                    o.update(c)
+                else:
+                    o.extend(c)
+                yield o
+        return gen()
+    return items
+
+
+def observe(yaml, path, items, D, L, opts, is_end=None, mode='list'):
     """one run: write `items` (events / nodes / values) with snapshots after every document, read back.
     -> (outcome, err, snaps, final, dout)"""
     s = LogStream()
     snaps = []
 
     def gen():
-        for it in items:
+        for it in feed(items, mode):
             yield it
             if is_end is None or is_end(it):
                 snaps.append(s.text())
@@ -248,6 +270,18 @@ def observe(yaml, path, items, D, L, opts, is_end=None):
             yaml.emit(gen(), stream=s, Dumper=D, **opts)
         elif path == 'serialize':
             yaml.serialize_all(gen(), stream=s, Dumper=D, **opts)
+        elif mode == 'driven':          # a Dumper object driven directly; every value is built, represented and dropped
+            d = D(s, **opts)
+            try:
+                d.open()
+                for j in range(len(items)):
+                    v = copy.deepcopy(items[j])
+                    d.represent(v)
+                    del v
+                    snaps.append(s.text())
+                d.close()
+            finally:
+                d.dispose()
         else:
             yaml.dump_all(gen(), stream=s, Dumper=D, **opts)
     except yaml.YAMLError as e:
@@ -324,8 +358,15 @@ def run_list(yaml, tools, events, opts, rnd, out, sample, origin, paths=('emit',
                     runs.append(('dump', em, D, pa, L, values, din, dict(lopts, sort_keys=False), None))
                     if shared(values):
                         runs.append(('dump', em, D, pa, L, shared(values), din, dict(lopts, sort_keys=False), None))
-    for path, em, D, pa, L, items, din, o, is_end in runs:
-        outcome, err, snaps, final, dout = observe(yaml, path, items, getattr(yaml, D), getattr(yaml, L), o, is_end)
+                    modes = ['fresh', 'driven']
+                    if n >= 2 and (all(type(x) is dict for x in values) or all(type(x) is list for x in values)):
+                        modes.append('again')
+                    for mode in modes:
+                        runs.append(('dump', em, D, pa, L, values, din, dict(lopts, sort_keys=False), None, mode))
+    for run in runs:
+        path, em, D, pa, L, items, din, o, is_end = run[:9]
+        mode = run[9] if len(run) > 9 else 'list'
+        outcome, err, snaps, final, dout = observe(yaml, path, items, getattr(yaml, D), getattr(yaml, L), o, is_end, mode)
         out['runs'] += 1
         okish = outcome == 'ok' and len(dout) == len(din) and len(snaps) == len(din) and \
             all(final.startswith(x) for x in snaps) and \
@@ -336,7 +377,7 @@ def run_list(yaml, tools, events, opts, rnd, out, sample, origin, paths=('emit',
         if not okish or rnd.random() < sample:
             out['traces'].append({'fam': 0, 'outcome': outcome, 'din': din, 'dout': dout,
                                   'snaps': [ep.cps(x) for x in snaps], 'final': ep.cps(final)})
-            out['meta'].append({'path': path, 'emitter': em, 'dumper': D, 'parser': pa, 'loader': L, 'opts': repr(o),
+            out['meta'].append({'path': path, 'feed': mode, 'emitter': em, 'dumper': D, 'parser': pa, 'loader': L, 'opts': repr(o),
                                 'final': final[:400], 'err': err, 'origin': origin, 'docs': n})
         # families: the text after the first j documents, keyed by what was written so far
         if outcome == 'ok':
@@ -463,7 +504,7 @@ def judge_all(v, outs, tag, acc):
     for m, t, (ok, why, at) in zip(meta, traces, verdicts):
         if not ok:
             clause, defect, kind = (why.split(':') + ['', ''])[:3]
-            v.violation({'path': m['path'], 'emitter': m['emitter'], 'parser': m['parser'], 'clause': clause,
+            v.violation({'path': m['path'], 'feed': m.get('feed', '-'), 'emitter': m['emitter'], 'parser': m['parser'], 'clause': clause,
                          'defect': defect or clause, 'emptyroot': kind or '-', 'dumper': m['dumper']},
                         dict(m, outcome=t.get('outcome'), at_document=at))
 
@@ -478,7 +519,23 @@ def main(tier, replay=None):
     jobs = [(name, dict(module='MC_Emitter', cfg='MC_Emitter.cfg', dump=True, tag='C12_' + name, timeout=3000, coverage=False,
                         constants={k: (x if isinstance(x, str) else tla(x)) for k, x in dict(DCONF[name], Fix=fix).items()}))
             for name in names]
-    results = ep.run_tlc_many(jobs, parallel=4 if tier == 'quick' else 3, workers=4 if tier == 'quick' else 5)
+    # spec/DocFeed.tla: the representer's per-document bookkeeping against the ways documents are handed over; the two negative
+    # controls (no cache reset, with / without keeper reset) must fail - their counterexamples are the delivery modes replayed below
+    feed = dict(module='DocFeed', cfg='DocFeed.cfg', timeout=600, coverage=False)
+    jobs += [('feed', dict(feed, tag='C12_feed', constants={'MaxDocs': 4 if tier == 'quick' else 5})),
+             ('feed_nc1', dict(feed, tag='C12_feed_nc1', constants={'ResetCache': 'FALSE'})),
+             ('feed_nc2', dict(feed, tag='C12_feed_nc2', constants={'ResetCache': 'FALSE', 'ResetKeeper': 'FALSE'}))]
+    results = ep.run_tlc_many(jobs, parallel=5 if tier == 'quick' else 3, workers=4 if tier == 'quick' else 5)
+    r = results['feed']
+    if r.violated or not r.ok:
+        print(r.out[-2000:])
+        raise SystemExit('machinery failure: DocFeed.tla violates %s' % r.violated)
+    for nc in ('feed_nc1', 'feed_nc2'):
+        if not results[nc].violated:
+            raise SystemExit('machinery failure: negative control %s of DocFeed.tla is not violated (vacuous invariant)' % nc)
+    acc['states'] += r.distinct
+    acc['trans'] += r.generated
+    acc['docfeed_states'] = r.distinct
     _t('tlc x%d' % len(jobs))
     all_outs = []
     for name in names:
@@ -518,7 +575,7 @@ def main(tier, replay=None):
     _t('judge')
     v.cov = {'states': acc['states'], 'transitions': acc['trans'], 'traces_validated_against_impl': acc['runs'],
              'runs_judged_by_tlc': acc['judged'], 'document_lists': acc['lists'], 'lists_by_number_of_documents': acc['sizes'],
-             'prefix_families': acc['families'], 'corpus_lists': acc.get('corpus_lists', 0), 'exhaustive': True,
+             'prefix_families': acc['families'], 'docfeed_states': acc.get('docfeed_states'), 'corpus_lists': acc.get('corpus_lists', 0), 'exhaustive': True,
              'L_variant_repairs_detected_in_tree': fix, 'samples': acc['samples'][:5],
              'distinct_nontrivial': sum(c for k, c in acc['sizes'].items() if int(k) >= 2),
              'rule': 'every list of 0..k documents of the model configurations is written through emit / serialize_all / dump_all '
